@@ -439,8 +439,51 @@ def replay_membership(_):
     return out
 
 
+def replay_quadric_lines(_):
+    """A quadric of 3-space against the LineCollection of ALL special-position lines of the pool (through the origin, parallel
+    to each axis, in a coordinate plane, generic), in every cyclic order (each line comes first once): the two returned
+    collections hold at each position the two points the single line gives."""
+    g = import_geometer()
+    PL = pools()
+    lines = PL["line3x"][0]
+    out = []
+    for qi, q in enumerate(PL["quadric3"][0][:6]):
+        singles = []
+        for l in lines:
+            try:
+                with np.errstate(all="ignore"):
+                    singles.append([np.asarray(p.array, dtype=complex) for p in q.intersect(l)])
+            except Exception:  # noqa: BLE001
+                singles.append(None)
+        for rot in range(len(lines)):
+            order = [(k + rot) % len(lines) for k in range(len(lines))]
+            site = "quadric_intersect3/all-special-position-lines"
+            try:
+                with np.errstate(all="ignore"):
+                    res = q.intersect(PL["line3x"][1]([lines[k] for k in order]))
+                arrs = [np.asarray(r.array, dtype=complex) for r in res]
+                for pos, k in enumerate(order):
+                    if singles[k] is None or len(singles[k]) != 2 or len(arrs) != 2:
+                        continue
+                    got = [a[pos] for a in arrs]
+                    if not all(np.all(np.isfinite(x)) for x in got + singles[k]):
+                        continue
+                    a, b = singles[k]
+                    ok = (same_class(got[0], a, 1e-6) and same_class(got[1], b, 1e-6)) or (same_class(got[0], b, 1e-6) and same_class(got[1], a, 1e-6))
+                    if not ok:
+                        out.append(dict(site=site, stratum="one-collection-axis", case={"quadric": np.asarray(q.array).tolist(), "first line": order[0], "position": pos, "line": k},
+                                        expected=[str(x.tolist()) for x in singles[k]], observed=[str(x.tolist()) for x in got]))
+                        break
+            except Exception as e:  # noqa: BLE001
+                out.append(dict(site=site, stratum="one-collection-axis", case={"quadric": qi, "first line": order[0]}, expected="two point collections",
+                                observed=f"raised {type(e).__name__}: {e}"))
+    return out
+
+
 def _work(job):
     try:
+        if job[0] == "qlines":
+            return replay_quadric_lines(None)
         if job[0] == "member":
             return replay_membership(None)
         return replay(job[1]) if job[0] == "recs" else replay_indexing(None)
@@ -479,7 +522,7 @@ def run(ctx: Ctx):
         if not strata.get(need):
             raise MachineryError(f"stratum {need} never visited (vacuous)")
     ctx.log(f"{len(recs)} (operation, shapes, contents) cases over {len(names)} operations")
-    jobs = [("recs", recs[i:i + 60]) for i in range(0, len(recs), 60)] + [("idx", None), ("member", None)]
+    jobs = [("recs", recs[i:i + 60]) for i in range(0, len(recs), 60)] + [("idx", None), ("member", None), ("qlines", None)]
     with Pool(16) as pool:
         results = pool.map(_work, jobs, chunksize=1)
     for res in results:
